@@ -1744,6 +1744,13 @@ func genC09(g *G, sc *Scenario, tier string) {
 					inner = append(inner, Op{K: "post", DS: "ds", Ents: ents()}, advance())
 				case 2:
 					inner = append(inner, Op{K: "post", DS: "ds", Ents: ents(), M: map[string]any{"start": true, "id": "syncA"}})
+					// ... and that client's sync is over again (completed, or its lease has run out) before the job gets to
+					// its own end: the job has nothing left to complete
+					if x := g.r.Float64(); x < 0.3 {
+						inner = append(inner, Op{K: "post", DS: "ds", Ents: ents(), M: map[string]any{"id": "syncA", "end": true}})
+					} else if x < 0.5 {
+						inner = append(inner, Op{K: "advance", N: lease * 2000})
+					}
 				default:
 					inner = append(inner, advance())
 				}
